@@ -490,6 +490,12 @@ func c18Ks(targets []*c18Target, fracs []int) (ks []int, exhaustive bool) {
 			for _, f := range fracs {
 				set[int(int64(f)*int64(n)/10000)] = true
 			}
+			if n > 200000 {
+				// large outputs: offsets inside the last buffer-sized blocks as well (streaming writers fail there)
+				for _, d := range []int{100, 4096, 5000, 30000, 60000, 65536, 70000, 131072} {
+					set[n-d] = true
+				}
+			}
 		}
 	}
 	for k := range set {
@@ -777,6 +783,22 @@ func c18DrawContent(t *rapid.T, forInfer bool, account string, preferValid bool)
 		classes = []string{"noisy", "noisy", "noisy", "noisy", "formatted", "mutated", "tailjunk"}
 	}
 	class := rapid.SampledFrom(classes).Draw(t, "class")
+	if !preferValid && rapid.IntRange(0, 24).Draw(t, "huge") == 0 {
+		// a journal of more than 1 MiB: a noisy block repeated (streaming / chunked writers behave differently there)
+		block := gen.RenderNoisy(t, gen.GenSyntaxJournal(t, 25, !forInfer))
+		if len(block) < 200 {
+			block += "2020-01-01 open  Assets:Filler\n# filler comment line to give the block some size\n"
+		}
+		if !strings.HasSuffix(block, "\n") {
+			block += "\n"
+		}
+		var sb strings.Builder
+		for sb.Len() < (1<<20)+rapid.IntRange(1000, 300000).Draw(t, "hugeExtra") {
+			sb.WriteString(block)
+			sb.WriteString("\n")
+		}
+		return []byte(sb.String()), "huge"
+	}
 	maxN := rapid.SampledFrom([]int{2, 3, 4, 6, 8}).Draw(t, "maxN")
 	if class == "large" {
 		maxN = rapid.SampledFrom([]int{12, 25}).Draw(t, "maxNLarge")
@@ -837,7 +859,24 @@ func drawC18(t *rapid.T) C18Case {
 		}
 		return "rw/"
 	}
-	if c.Cmd == "format" {
+	if c.Cmd == "format" && c.Fault == "fsize" && rapid.IntRange(0, 9).Draw(t, "manyFiles") == 0 {
+		// one invocation over many small files, a few of them unparseable (batching / early abort)
+		n := rapid.IntRange(33, 90).Draw(t, "manyN")
+		nBad := rapid.IntRange(1, 3).Draw(t, "manyBad")
+		bad := map[int]bool{}
+		for b := 0; b < nBad; b++ {
+			bad[rapid.IntRange(0, n-1).Draw(t, "badAt")] = true
+		}
+		for i := 0; i < n; i++ {
+			content := fmt.Sprintf("2020-01-%02d  open   Assets:A%d\n", 1+i%28, i)
+			class := "tiny"
+			if bad[i] {
+				content = fmt.Sprintf("2020-01-%02d opne Assets:A%d\n", 1+i%28, i)
+				class = "tiny-bad"
+			}
+			c.Files = append(c.Files, C18File{Name: fmt.Sprintf("m/j%02d.knut", i), Content: []byte(content), Role: "target", Class: class})
+		}
+	} else if c.Cmd == "format" {
 		n := rapid.SampledFrom([]int{1, 1, 1, 2, 2, 3, 4}).Draw(t, "nFiles")
 		for i := 0; i < n; i++ {
 			content, class := c18DrawContent(t, false, "", c.Fault == "rodir")
